@@ -125,6 +125,14 @@ def check(ctx, rep):
             continue
         rep.ob('seed.reduced-before-use', construct, must_follow(w, reduced),
                'a non-constant seed store is not followed on every path by %= _period or _cycle()', ctx.where(w))
+    # RANDOMIZE n seeds from n as given (floats by their bytes); only a seed typed at the prompt is rounded to an integer
+    rz = ctx.fn('pcbasic/basic/implementation.py:Implementation.randomize_')
+    flz = ctx.flow(rz)
+    ti = [a for a in own_nodes(rz) if isinstance(a, ast.Assign) and norm(a.targets[0]) == 'val' and norm(a.value) == 'values.to_integer(val)']
+    rs_ = [c for c in own_nodes(rz) if isinstance(c, ast.Call) and norm(c.func) == 'self.randomiser.reseed']
+    rep.ob('randomize.argument-as-given', 'RANDOMIZE rounds only a seed entered at the prompt; an argument reaches reseed() unrounded',
+           len(ti) == 1 and isinstance(ti[0]._parent, ast.If) and norm(ti[0]._parent.test) == 'val is not None' and ti[0] in ti[0]._parent.orelse and len(rs_) == 1 and [norm(a) for a in rs_[0].args] == ['val'],
+           'every argument is rounded first: RANDOMIZE 40000 raises Overflow and does not reseed; .25 seeds like 0', ctx.where(rz))
     # 4. rnd_ paths
     rnd = ctx.fn(R + ':Randomiser.rnd_')
     fl = ctx.flow(rnd)
@@ -132,9 +140,10 @@ def check(ctx, rep):
     ctxs = []
     for cc in cyc_calls:
         facts = dict((f.text, f.pol) for f in fl.facts(cc))
-        ctxs.append((facts.get('f is None'), facts.get('f.is_zero()')))
+        ctxs.append((facts.get('f is None'), facts.get('f.is_zero()'), facts.get('f.is_negative()')))
     rep.ob('rnd.cycle-once-per-call', 'RND / RND(x<>0) cycle exactly once; RND(0) does not',
-           sorted(ctxs, key=repr) == sorted([(True, None), (None, False)], key=repr), repr(ctxs), ctx.where(rnd))
+           sorted(ctxs, key=repr) == sorted([(True, None, None), (None, False, None)], key=repr),
+           'cycle contexts (f is None, f.is_zero(), f.is_negative()) = %r: the generator must advance for every non-zero argument, whatever its sign' % ctxs, ctx.where(rnd))
     for fn, w in writes:
         if fn is rnd:
             facts = dict((f.text, f.pol) for f in fl.facts(w))
@@ -184,6 +193,8 @@ def variants(ctx):
                                             '%s = %s' % (name, val))
 
     return [
+        Va('randomize-rounds-every-argument', 'break', 'pcbasic/basic/implementation.py', lambda tree: _dedent_round(mu.find_def(tree, 'Implementation.randomize_')), expect='randomize.argument'),
+        Va('rnd-positive-argument-does-not-advance', 'break', R, in_fn('Randomiser.rnd_', _cycle_only_negative), expect='rnd.cycle'),
         Va('multiplier-3-mod-4', 'break', R, set_const('_multiplier', '214015'), expect='hull-dobell'),
         Va('increment-even', 'break', R, set_const('_increment', '2531010'), expect='hull-dobell.gcd'),
         Va('period-2^23', 'break', R, set_const('_period', '2**23'), expect='lcg.period'),
@@ -206,3 +217,31 @@ def variants(ctx):
                                                                  'self._increment + self._multiplier * self._seed'))),
         Va('other-full-period-constants', 'neutral', R, set_const('_multiplier', '214017')),
     ]
+
+
+def _cycle_only_negative(fn):
+    for n in ast.walk(fn):
+        if isinstance(n, ast.If) and norm(n.test) == 'f.is_negative()':
+            par = n._parent if hasattr(n, '_parent') else None
+            # find the block that holds this If and the cycle call after it
+            for o in ast.walk(fn):
+                for fld in ('body', 'orelse'):
+                    b = getattr(o, fld, None)
+                    if isinstance(b, list) and n in b:
+                        i = b.index(n)
+                        if i + 1 < len(b) and 'self._cycle()' in norm(b[i + 1]):
+                            n.body.append(b.pop(i + 1))
+                            return True
+    return False
+
+
+def _dedent_round(fn):
+    iff = [s for s in fn.body if isinstance(s, ast.If) and norm(s.test) == 'val is not None']
+    if len(iff) != 1:
+        return False
+    st = [x for x in iff[0].orelse if norm(x) == 'val = values.to_integer(val)']
+    if len(st) != 1:
+        return False
+    iff[0].orelse.remove(st[0])
+    fn.body.insert(fn.body.index(iff[0]) + 1, st[0])
+    return True
